@@ -9,6 +9,7 @@ import ConserveModel.Driver.Tree
 import ConserveModel.Driver.Fs
 import ConserveModel.Driver.Protocol
 import ConserveModel.Driver.Ops
+import ConserveModel.Driver.Json
 /-
 cvmodel: line-protocol driver for the executable model.
 One request per line; the answer is zero or more lines followed by a line ".".
@@ -49,7 +50,7 @@ def handleStateless (toks : List String) : List String :=
   match handleBlake toks with
   | some r => r
   | none =>
-    match [handleGlob, handleDiff, handleMtime, handleTree, Conserve.DFs.handleFs, Conserve.Proto.handleProtocol].findSome? (fun h => h toks) with
+    match [handleGlob, handleDiff, handleMtime, handleTree, Conserve.DFs.handleFs, Conserve.Proto.handleProtocol, Conserve.Json.handleJson].findSome? (fun h => h toks) with
     | some r => r
     | none => handle toks
 
